@@ -408,6 +408,85 @@ CATALOGUE['C17'] = [
   (S, None, _IO, "                nvals = (data[:, None] * fdp).sum(0) / ndp", "                nvals = (fdp * data[:, None]).sum(0) / ndp"),
 ]
 
+CATALOGUE['C15'] += [
+  (F, 'R-VACUOUS', 'noaafiles/_l100.py', "            if len(mynames) < 8:\n                return False\n", ""),
+  (S, None, 'noaafiles/_l100.py', "            if len(mynames) < 8:\n                return False\n", "            if len(mynames) < len(_orignames[:8]):\n                return False\n"),
+]
+
+# ---- entries for the rules generalised after the third held-out wave
+CATALOGUE['C01'] += [
+  (F, 'R-DIMKEY', _F, "            newdl = dimlens[dk]\n            outf.copyDimension(dv, key=dk, dimlen=newdl)", "            outf.copyDimension(dv, dimlen=dimlens[dk])"),
+  (F, 'R-SWAP', 'core/_variables.py', "        newdims[a1] = self.dimensions[a2]\n        newdims[a2] = self.dimensions[a1]\n        out.dimensions = tuple(newdims)\n        return out\n\n    def ncattrs", "        newdims[a1] = newdims[a2]\n        newdims[a2] = newdims[a1]\n        out.dimensions = tuple(newdims)\n        return out\n\n    def ncattrs"),
+]
+CATALOGUE['C02'] += [
+  (F, 'R-DELROWCOL', _IO, "            if isarray['ROW'] and isarray['COL']:", "            if np.sum(list(isarray.values())) > 1:"),
+  (S, None, _IO, "            if isarray['ROW'] and isarray['COL']:", "            if isarray['COL'] and isarray['ROW']:"),
+  (F, 'R-SLICEDEF', _FN, "    if len(slicedef) == 2:\n        slicedef.append(slicedef[-1] + 1)\n    slicedef = (slicedef + [None, ])[:4]\n    dimkey, dmin, dmax, dstride = slicedef", "    dimkey, dmin, dmax, dstride = (slicedef + [None, None])[:4]\n    if dmax is None:\n        dmax = dmin + 1"),
+]
+CATALOGUE['C03'] += [
+  (F, 'R-UNTOUCHED', _IO, "            outf.VGLVLS = np.append(\n                nlayb[:, 0], nlayb[-1, 1]).view(np.ndarray)\n        outf.updatemeta()\n        return outf", "            outf.VGLVLS = np.append(\n                nlayb[:, 0], nlayb[-1, 1]).view(np.ndarray)\n        outf.updatemeta()\n        outf.updatetflag(overwrite=True)\n        return outf"),
+]
+CATALOGUE['C04'] += [
+  (F, 'R-ORDER', _F, "        files = [cls(p, **kwds) for p in paths]", "        opened = dict((p, cls(p, **kwds)) for p in paths)\n        files = list(opened.values())"),
+]
+CATALOGUE['C05'] += [
+  (F, 'R-ALIAS', _F, "            fs = [self, other]\n        dimensions = [f_.dimensions for f_ in fs]", "            fs = [self, other]\n        if len(fs) == 1:\n            return self\n        dimensions = [f_.dimensions for f_ in fs]"),
+  (F, 'R-QMUT', 'pncgen.py', "        self.addVariables(pfile, nfile)\n        nfile.sync()\n        return nfile", "        self.addVariables(pfile, nfile)\n        nfile.sync()\n        pfile.close()\n        return nfile"),
+]
+CATALOGUE['C06'] += [
+  (F, 'R-EVALASSIGN', _F, "        assignedkeys = [k for k in assignedkeys if k in vardict]", "        assignedkeys = [k for k in assignedkeys if k in vardict and k not in self.variables]"),
+]
+CATALOGUE['C07'] += [
+  (F, 'R-CONVSTEPS', 'pncgen.py', "            print(\"Adding globals\", file=sys.stdout)\n        self.addGlobalProperties(pfile, nfile)", "            print(\"Adding globals\", file=sys.stdout)\n            self.addGlobalProperties(pfile, nfile)"),
+  (F, 'R-AUTOSCALE', 'pncgen.py', "            for k in pfile.variables.keys():\n                if self.verbose:\n                    print(\"Populating\", k, file=sys.stdout)", "            nfile.set_auto_maskandscale(False)\n            for k in pfile.variables.keys():\n                if self.verbose:\n                    print(\"Populating\", k, file=sys.stdout)"),
+  (F, 'R-CLASSSTATE', 'pncgen.py', "    def addDimensions(self, pfile, nfile):\n", "    def addDimensions(self, pfile, nfile):\n        self.unlimited_dimensions.extend(k for k, v in pfile.dimensions.items() if v.isunlimited())\n"),
+]
+CATALOGUE['C08'] += [
+  (F, 'R-ENDIAN', _UM, "            formats=['i', 'i', 'f', 'i', 'f', 'i'])).newbyteorder(ep)\n        date_time_block_size = 6", "            formats=['>i', '>i', '>f', '>i', '>f', '>i']))\n        date_time_block_size = 6"),
+  (F, 'R-FLUSH', 'camxfiles/wind/Write.py', "        outfile.write(buf)\n    outfile.flush()\n    return outfile", "        outfile.write(buf)\n    return outfile"),
+  (F, 'R-CLASSSTATE', _LM, ("    __idum = 0\n", "        self._boundary_def = {}\n"), ("    __idum = 0\n    _boundary_def = {}\n", "")),
+]
+CATALOGUE['C10'] += [
+  (F, 'R-FOURCOUNT', _IO, "            if newdimlen != len(self.dimensions['VAR']):", "            if newdimlen > len(self.dimensions['VAR']):"),
+  (F, 'R-TFLAGRESTORE', _IO, "        outf = PseudoNetCDFFile.mask(self, *args, **kwds)\n        PseudoNetCDFFile.copyVariable(\n            outf, self.variables['TFLAG'], key='TFLAG'\n        )", "        outf = PseudoNetCDFFile.mask(self, *args, **kwds)\n        if 'TFLAG' not in outf.variables:\n            PseudoNetCDFFile.copyVariable(\n                outf, self.variables['TFLAG'], key='TFLAG'\n            )"),
+]
+CATALOGUE['C12'] += [
+  (F, 'R-DIVMODPAIR', _F, "                    yearincrs = np.array(fracyearincrs // 1).astype('i')", "                    yearincrs = np.asarray(fracyearincrs).astype('i')"),
+  (S, None, _F, "                    yearincrs = np.array(fracyearincrs // 1).astype('i')", "                    yearincrs = np.floor(fracyearincrs).astype('i')"),
+  (F, 'R-PERSTEP', _F, "            out = np.array([datetime(yyyy, 1, 1, tzinfo=utc) +\n                            timedelta(days=day - 1)\n                            for yyyy, day in zip(yyyys, days)])", "            yearstart = datetime(yyyys[0], 1, 1, tzinfo=utc)\n            out = np.array([yearstart + timedelta(days=day - 1)\n                            for day in days])"),
+  (F, 'R-FENCEPOST', _IO, "    dt = (times[-1] - times[0]).total_seconds() / (len(times) - 1)", "    dt = (times[-1] - times[0]).total_seconds() / len(times)"),
+]
+CATALOGUE['C13'] += [
+  (F, 'R-REWIND', 'camxfiles/FortranFileUtil.py', "        rf = RecordFile(rf)\n    rf._newrecord(0)\n    return rf", "        rf = RecordFile(rf)\n    return rf"),
+  (F, 'R-NONEGUARD', 'camxfiles/one3d/Read.py', "        if time is None:\n            time = self.start_time\n\n        if chkvar:", "        time = time or self.start_time\n\n        if chkvar:"),
+]
+CATALOGUE['C15'] += [
+  (F, 'R-CLASSSTATE', 'geoschemfiles/_bpchmaster.py', ("class bpch(bpch1, bpch2):\n", "        quiet = reader is None\n"), ("class bpch(bpch1, bpch2):\n    _attempts = [bpch1, bpch2]\n\n", "        quiet = reader is None\n        attempts = self._attempts\n        attempts.reverse()\n")),
+]
+CATALOGUE['C16'] += [
+  (F, 'R-EDGECLAMP', _F, "            fidx = np.interp(val, dimevals, idx, left=left, right=right)\n            if right is None or right == dimevals[-1]:\n                fidx = np.minimum(fidx, dimvals.size - 1)", "            if right is None or right == dimevals[-1]:\n                right = dimvals.size - 1\n            fidx = np.interp(val, dimevals, idx, left=left, right=right)"),
+  (F, 'R-BOUNDSKEYS', _F, "        bounds_keys = [dim + '_bounds', dim + '_bnds']\n        if hasattr(dimv, 'bounds'):\n            bounds_keys.insert(0, dimv.bounds)", "        bounds_keys = [getattr(dimv, 'bounds', dim + '_bounds'), dim + '_bnds']"),
+  (F, 'R-CALSRC', _F, "        calendar = getattr(self.variables[timekey], 'calendar', 'standard')", "        calendar = getattr(self, 'calendar', 'standard')"),
+]
+CATALOGUE['C17'] += [
+  (F, 'R-PARTUNITY', 'coordutil.py', "                           bounds_error=False, fill_value='extrapolate')", "                           bounds_error=False, fill_value='extrapolate',\n                           assume_sorted=True)"),
+  (F, 'R-OVERLAP', 'coordutil.py', "            bf = max(b - lay, 0)", "            bf = max(b - ll, 0)"),
+  (F, 'R-WEIGHTSPERCOL', _F, "                    weights = getinterpweights(od, nd, **interpkwds)\n                    for nvk, nvv in outf.variables.items():", "                    if ii == () or True and kk == ():\n                        weights = getinterpweights(od, nd, **interpkwds)\n                    for nvk, nvv in outf.variables.items():"),
+]
+CATALOGUE['C18'] += [
+  (F, 'R-BLOCKID', 'geoschemfiles/_bpch.py', "                (header[7], header[8]) == (first_header[7], first_header[8]) or", "                header[8] == first_header[8] or"),
+  (F, 'R-IDKEEP', 'geoschemfiles/_newbpch.py', "            if pk == 'tracerid':\n                continue\n", ""),
+  (F, 'R-DIAGFILTER', 'geoschemfiles/_bpch.py', "                if myl[0] != '#'\n            ])", "                if myl[0] not in ('#', ' ')\n            ])"),
+]
+CATALOGUE['C19'] += [
+  (F, 'R-SCALELINE', _FFI, "    print(delim.join(['1' for k in depvarkeys]), file=outfile)", "    print(delim.join([str(getattr(f.variables[k], 'scale', 1))\n                      for k in depvarkeys]), file=outfile)"),
+]
+CATALOGUE['C20'] += [
+  (F, 'R-LAYUNION', _ARL, "        alllayvarkeys = []\n        for layk, layvarkeys in out['laykeys']:\n            alllayvarkeys.extend(\n                [k.decode() for k in layvarkeys\n                 if k.decode() not in alllayvarkeys])\n        self._layvarkeys = tuple(alllayvarkeys)", "        layk, layvarkeys = out['laykeys'][0]\n        self._layvarkeys = tuple([k.decode() for k in layvarkeys])"),
+  (F, 'R-WORKPREC', _ARL, "    data = (bytes.view('uint8') - np.float32(127.)) * invscale[..., None, None]", "    data = (bytes.view('uint8') - 127) * invscale[..., None, None]"),
+  (S, None, _ARL, "    scale = np.float32(2.0)**np.float32(7 - EXP.astype('i'))\n    invscale = np.float32(1.) / scale", "    invscale = np.float32(2.0)**np.float32(EXP.astype('i') - 7)"),
+]
+
 
 def _findings(prop, overlay):
     warnings.simplefilter('ignore')
